@@ -42,7 +42,16 @@ def run(ctx):
             pool = [round(rng.uniform(0, 10), 1) for _ in range(rng.randint(1, 8))]
             samples = [rng.choice(pool) if rng.random() < 0.6 else rng.uniform(0, 10) for _ in range(n)]
             v = rng.choice([rng.choice(samples), min(samples) - 1, max(samples) + 1, rng.uniform(0, 10), 0.0])
-            dist = calcmod.EmpiricalDistribution(tl.astensor(np.asarray(samples, dtype=np.float64)))
+            arr = np.asarray(samples, dtype=np.float64)
+            shp = rng.choice(['flat', 'col', 'row', 'grid'])
+            if shp == 'col': arr = arr.reshape(n, 1)
+            elif shp == 'row': arr = arr.reshape(1, n)
+            elif shp == 'grid':
+                ds = [d for d in range(2, n) if n % d == 0]
+                if ds:
+                    d = rng.choice(ds); arr = arr.reshape(d, n // d)
+            ctx.tally('sample_shape', shp)
+            dist = calcmod.EmpiricalDistribution(tl.astensor(arr))
             p = float(np.asarray(tl.tolist(dist.pvalue(tl.astensor(np.asarray(v, dtype=np.float64))))))
             a, b = lean.ok({'op': 'empirical', 'samples': fl(samples), 'value': f2b(v)})
             ctx.count()
@@ -60,16 +69,25 @@ def run(ctx):
     pyhf.set_backend('numpy')
     # ---------------- toy wiring (spies)
     orig_fixed = calcmod.fixed_poi_fit
-    for ts in ('qtilde', 'q', 'q0'):
-        m = pyhf.Model(counting.single_bin_spec(5.0, 40.0), poi_name='mu')
-        data = [44.0] + m.config.auxdata
-        seen = []
+    for ts, custom in [(t, c) for t in ('qtilde', 'q', 'q0') for c in (False, True)]:
+        if not custom:
+            m = pyhf.Model(counting.single_bin_spec(5.0, 40.0), poi_name='mu')
+            data = [44.0] + m.config.auxdata
+            ckw = {}
+        else:
+            m = pyhf.simplemodels.uncorrelated_background([5.0, 6.0], [40.0, 50.0], [6.0, 7.0])
+            data = [44.0, 58.0] + m.config.auxdata
+            fx = list(m.config.suggested_fixed()); fx[1 + rng.randrange(2)] = True
+            ini = list(m.config.suggested_init()); ini[1] = 1.05; ini[2] = 0.97
+            bnd = [list(b) for b in m.config.suggested_bounds()]; bnd[0] = [0.0, 8.0]
+            ckw = {'fixed_params': fx, 'init_pars': ini, 'par_bounds': bnd}
+        seen = []; seen_args = []
         def spy(poi_val, *a, **k):
-            seen.append(float(poi_val)); return orig_fixed(poi_val, *a, **k)
+            seen.append(float(poi_val)); seen_args.append((a, k)); return orig_fixed(poi_val, *a, **k)
         calcmod.fixed_poi_fit = spy
         try:
             mu_test = rng.choice([0.7, 1.0, 1.8])
-            calc = calcmod.ToyCalculator(data, m, test_stat=ts, ntoys=5, track_progress=False)
+            calc = calcmod.ToyCalculator(data, m, test_stat=ts, ntoys=5, track_progress=False, **ckw)
             np.random.seed(rng.randrange(2**31))
             calc.distributions(mu_test)
         finally:
@@ -78,6 +96,18 @@ def run(ctx):
         rep_bkg = 1.0 if ts == 'q0' else 0.0
         if seen[:2] != [mu_test, rep_bkg]:
             ctx.fail('C14/toy-wiring', 'pseudo-data not generated at the conditional fits of (tested mu, background hypothesis)', {'ts': ts, 'mu': mu_test}, seen[:2], [mu_test, rep_bkg])
+        # both conditional fits are to the observed data under the calculator's own settings
+        names = ['data', 'pdf', 'init_pars', 'par_bounds', 'fixed_params']
+        wantargs = {'data': list(data), 'init_pars': ckw.get('init_pars', list(m.config.suggested_init())),
+                    'par_bounds': [list(b) for b in ckw.get('par_bounds', m.config.suggested_bounds())],
+                    'fixed_params': ckw.get('fixed_params', list(m.config.suggested_fixed()))}
+        for which, (a_, k_) in zip(('signal-like', 'background-like'), seen_args[:2]):
+            got = dict(zip(names, a_)); got.update(k_)
+            for nme, w in wantargs.items():
+                g = got.get(nme)
+                g = None if g is None else ([list(x) for x in g] if nme == 'par_bounds' else [bool(x) if nme == 'fixed_params' else float(x) for x in np.asarray(pyhf.tensorlib.tolist(g)).tolist()])
+                if g != w:
+                    ctx.fail('C14/toy-wiring-settings', f'the {which} conditional fit does not use the calculator\'s {nme}', {'ts': ts, 'mu': mu_test, 'settings': {k: v for k, v in ckw.items()}}, g, w)
     # ---------------- sampling: shape, integrality, moments (seeded statistical tests)
     for bk in (['numpy', 'pytorch'] if not ctx.thorough else ['numpy', 'jax', 'pytorch', 'tensorflow']):
         pyhf.set_backend(bk)
